@@ -36,12 +36,12 @@ func Key(sigType int, seed uint64) refmodel.KeyPair {
 
 // Fixed far-future instants so that no time-dependent validator interferes.
 const (
-	Published    = 1900000000 // 2030-03-17
-	PublishedMs  = 1900000000123
-	ExpiresOff   = 600
-	OfflineExp   = 2000000000
-	LeaseEndSec  = 1900000600
-	LeaseEndMs   = 1900000600000
+	Published   = 1900000000 // 2030-03-17
+	PublishedMs = 1900000000123
+	ExpiresOff  = 600
+	OfflineExp  = 2000000000
+	LeaseEndSec = 1900000600
+	LeaseEndMs  = 1900000600000
 )
 
 // cryptoKey returns marker bytes that are a valid ElGamal Y (2 <= Y < p-1) when n == 256.
